@@ -437,6 +437,10 @@ class RealGraph:
             s = ci["state"]
             st = {"prev": s.get("prev"), "head": s["head"], "A": s["applied"], "U": s["unapplied"],
                   "H": s["hidden"], "P": {k: v["oid"] for k, v in s["patches"].items()}}
+        if st is not None and ci["msg"].strip() == "parent grouping":
+            # StackState::commit's grouping commits carry the state TREE (stack.json included) but
+            # are not states: the model gives them no state, the canonical shape calls them "group"
+            return {"parents": ci["parents"], "tree": None, "meta": 0, "state": None, "kind": "group"}
         return {"parents": ci["parents"], "tree": ci["tree"], "meta": ci["meta"], "state": st}
 
 
